@@ -190,6 +190,66 @@ def replay_stale():
     finally:
         shutil.rmtree(td, ignore_errors=True)
 
+def transformer_state(rep):
+    """key determines value also needs: the transformation of a module is a function of (source, configuration) - not of which modules the process
+    compiled before.  The only process-wide object the AST transformer starts from is claw_state.node_scope_beforelist_global, shared copy-on-write:
+    a scope makes it its own with permute() before the first write.  (F) BeartypeNodeScopeBeforelist.permute: it never modifies the beforelist it is called on and never
+    returns it (a fresh object, whatever the state of the parent) - so nothing a module's transformation tracks can leak into the next module's."""
+    from pyvc import funcmode, model as M, symx
+    from pyvc.symx import Exec, St, VObj, VPy
+    import beartype.claw._ast._scope.clawastscopebefore as mod
+    fobj, node, _ = funcmode.load('beartype/claw/_ast/_scope/clawastscopebefore.py', 'BeartypeNodeScopeBeforelist.permute')
+    uni = M.Universe(); SELF = z3.Const('parent_beforelist', M.Obj)
+    def m_new(tag): return lambda ex, s, f, a, kw, w: [(s.ev('alloc', tag), VObj(M.fresh(tag)))]
+    cm = {mod.BeartypeNodeScopeBeforelist: m_new('new_beforelist'), mod.ChainMap: m_new('chainmap'), '.new_child': m_new('child_map')}
+    ex = Exec(uni, dict(mod.__dict__), call_model=cm, name='permute'); ex.fields_mode = True; ex.method_names = {'new_child'}
+    try: outs = ex.run_function(node, St(), (VObj(SELF),), {}, fobj)
+    except symx.Unsupported as e: rep.error(f'C16.transformer_state: unsupported: {e}'); return
+    if not outs: rep.error('C16.transformer_state: no returning path'); return
+    for i, (s_, v) in enumerate(outs):
+        writes = [e for e in s_.effects if e[0] in ('setattr', 'setitem') and e[1] is not None and e[1].eq(SELF)]
+        fresh = isinstance(v, VObj) and str(v.t).startswith('new_beforelist') and not v.t.eq(SELF)
+        rep.add(f'C16.transformer.permute.frame.parent_unmodified.path{i}', 'proved' if not writes else 'refuted', backend='structural',
+                where='permute() leaves the beforelist it is called on untouched' if not writes else f'permute() assigns {[e[2] for e in writes]} on the beforelist it is called on - for the process-wide root beforelist this leaks one module\'s imports into every later module\'s transformation')
+        rep.add(f'C16.transformer.permute.post.returns_a_fresh_beforelist.path{i}', 'proved' if fresh else 'refuted', backend='structural', where=f'returns {v}')
+    rep.functions.append('beartype/claw/_ast/_scope/clawastscopebefore.py:BeartypeNodeScopeBeforelist.permute (mode F: frame)')
+    # copy-on-write: a scope shares its parent's (ultimately the process-wide) beforelist until permute_beforelist_if_needed() replaces it by a copy
+    import beartype.claw._ast._scope.clawastscope as smod
+    fobj, node, _ = funcmode.load('beartype/claw/_ast/_scope/clawastscope.py', 'BeartypeNodeScope.permute_beforelist_if_needed')
+    SC = z3.Const('scope', M.Obj); uni.const(True); uni.const(False)
+    def m_permute(ex, s, f, a, kw, w): return [(s.ev('permute', ex.obj(f.self_)), VObj(z3.Const('copy_of_beforelist', M.Obj)))]
+    ex = Exec(uni, dict(smod.__dict__), call_model={'.permute': m_permute}, name='cow'); ex.fields_mode = True; ex.method_names = {'permute'}
+    OLD = z3.Select(z3.Const('H_beforelist', z3.ArraySort(M.Obj, M.Obj)), SC); MUT = M.truthy(z3.Select(z3.Const('H__is_beforelist_mutable', z3.ArraySort(M.Obj, M.Obj)), SC))
+    from pyvc import discharge
+    pr = discharge.Prover(uni.axioms())
+    outs = ex.run_function(node, St(), (VObj(SC),), {}, fobj)
+    for i, (s_, v) in enumerate(outs):
+        newb = z3.Select(ex.field(s_, 'beforelist'), SC); newm = M.truthy(z3.Select(ex.field(s_, '_is_beforelist_mutable'), SC))
+        per = [e for e in s_.events if e[0] == 'permute']
+        r = pr.prove(list(s_.pc), z3.And(newm, z3.If(MUT, newb == OLD, newb == z3.Const('copy_of_beforelist', M.Obj))))
+        ok_per = (len(per) == 1 and per[0][1].eq(OLD)) or (len(per) == 0)
+        rep.add(f'C16.transformer.copy_on_write.post.path{i}', r.status if ok_per else 'refuted', time=r.time, backend=r.backend, reason=r.reason,
+                where='afterwards the scope owns its beforelist: the copy permute() made of the shared one (or the one it already owned), and is marked as owner')
+    if not outs: rep.error('C16.transformer_state: permute_beforelist_if_needed has no returning path')
+    # every store into a scope's beforelist in the AST package happens after permute_beforelist_if_needed() in the same function
+    n_w = 0
+    for root, ds, fs in os.walk(os.path.join(REPO, 'beartype/claw/_ast')):
+        for f in sorted(fs):
+            if not f.endswith('.py'): continue
+            pth = os.path.join(root, f); rel = os.path.relpath(pth, REPO); tree = ast.parse(open(pth).read())
+            for fn in [x for x in ast.walk(tree) if isinstance(x, (ast.FunctionDef, ast.AsyncFunctionDef))]:
+                def through_beforelist(t):
+                    return any(isinstance(x, ast.Attribute) and x.attr == 'beforelist' for x in ast.walk(t))
+                stores = [t for st in ast.walk(fn) if isinstance(st, (ast.Assign, ast.AugAssign, ast.AnnAssign)) for t in (st.targets if isinstance(st, ast.Assign) else [st.target])
+                          if isinstance(t, (ast.Subscript, ast.Attribute)) and through_beforelist(t.value)]
+                muts = [c for c in ast.walk(fn) if isinstance(c, ast.Call) and isinstance(c.func, ast.Attribute) and c.func.attr in ('update', 'setdefault', 'pop', 'clear', 'append', 'add') and through_beforelist(c.func.value)]
+                for t in stores + muts:
+                    n_w += 1
+                    guards = [c for st in fn.body for c in ast.walk(st) if isinstance(st, ast.Expr) and isinstance(c, ast.Call) and isinstance(c.func, ast.Attribute) and c.func.attr == 'permute_beforelist_if_needed' and st.lineno < t.lineno]
+                    rep.add(f'C16.transformer.copy_on_write.write_after_copy.{fn.name}@{rel.split("/")[-1]}:{t.lineno}', 'proved' if guards else 'refuted', backend='structural',
+                            where=f'{rel}:{t.lineno} writes through a scope\'s beforelist ' + (f'after permute_beforelist_if_needed() (line {guards[-1].lineno})' if guards else 'WITHOUT first making the beforelist its own: the write lands in the shared (process-wide) beforelist'))
+    if not n_w: rep.error('C16.transformer_state: no write through a beforelist found in beartype/claw/_ast (extraction key no longer resolves)')
+
 RUN_KINDS = [('unhooked', ''), ('hooked_pep526_on', ''), ('hooked_pep526_off', ''), ('unhooked', '-B'), ('hooked_pep526_on', '-B'), ('hooked_pep526_off', 'env'),
              ('rehook_off_then_on', '')]      # ONE process imports the module under one configuration, drops it from sys.modules and imports it again under another
 
@@ -245,6 +305,8 @@ def main(tier, seed):
     rep = report.Report('C16', tier, seed, 'other', f'./check C16 --tier {tier}')
     try:
         deps = run(rep)
+        try: transformer_state(rep)
+        except Exception: rep.error('C16 transformer_state: ' + traceback.format_exc()[-1500:])
         try: history_bounded(rep, tier, seed)
         except Exception: rep.error('C16 history: ' + traceback.format_exc()[-1500:])
         reads = transformer_reads()
